@@ -16,7 +16,7 @@ import sys
 
 from build import AnalysisBroken
 from ir import (Inst, Arg, Const, FConst, Null, Undef, GlobalRef, FuncRef, CExpr, Agg, Other, strip_casts)
-from effects import indirect_kind, EXTERNAL_MODEL
+from effects import indirect_kind, EXTERNAL_MODEL, table_targets
 
 sys.setrecursionlimit(20000)
 
@@ -30,6 +30,23 @@ class PathCapExceeded(AnalysisBroken):
 
 def mask(bits):
     return (1 << bits) - 1
+
+
+def const_index_key(ptr):
+    """(base, byte offset) of an address, also when it is an indexed address whose single index is a constant on this
+    path (an unrolled loop counter) over byte / pointer / integer elements; otherwise the same as ptr_key"""
+    b, o = ptr_key(ptr)
+    while isinstance(b, tuple) and b[0] == "idx" and len(b[3]) == 1 and is_const(b[3][0]):
+        ty = b[2] or ""
+        esz = 8 if ty.endswith("*") else (max(1, int(ty[1:]) // 8) if ty.startswith("i") and ty[1:].isdigit() else None)
+        if esz is None:
+            break
+        k = b[3][0][1]
+        if k >> 63:
+            k -= 1 << 64
+        ib, io = ptr_key(b[1])
+        b, o = ib, io + k * esz + o
+    return b, o
 
 
 def type_bits(t):
@@ -633,6 +650,29 @@ class Executor:
                         cv = cv[3]
                     if isinstance(cv, tuple) and cv[0] == "fn" and cv[1] in self.prog.funcs:
                         callee = cv[1]
+                    elif isinstance(cv, tuple) and cv[0] == "ld" and isinstance(cv[1], tuple) and cv[1][0] == "idx" and cv[1][3]:
+                        # a call through a constant dispatch table: one continuation per entry, each knowing its index
+                        tt_ = table_targets(self.prog, f, ins)
+                        if tt_:
+                            idx_t = cv[1][3][-1]
+                            for j_, name_ in enumerate(tt_):
+                                st2 = st.clone()
+                                if not st2.assume(("icmp", "eq", idx_t, ("c", j_)), True, ins):
+                                    continue
+                                env2 = dict(env)
+                                if name_ in self.inline:
+                                    g = self.prog.funcs[name_]
+                                    actuals = [self.term(f, o, env2, args) for o in ins.operands]
+                                    st2.events.append(Event("enter", ins, f, tuple(actuals), None, len(st2.facts), name_, "inline", None, depth))
+                                    for st3, ret in self.exec_fn(g, actuals, st2, depth + 1):
+                                        env3 = dict(env2)
+                                        env3[ins.id] = ret if ret is not None else ("void",)
+                                        st3.events.append(Event("leave", ins, f, tuple(actuals), ret, len(st3.facts), name_, "inline", None, depth))
+                                        yield from self.exec_from(f, b, i + 1, prev, env3, st3, args, depth)
+                                else:
+                                    self.do_call(f, ins, env2, st2, args, depth, name_)
+                                    yield from self.exec_from(f, b, i + 1, prev, env2, st2, args, depth)
+                            return
                 if callee in self.inline and callee in self.prog.funcs:
                     g = self.prog.funcs[callee]
                     actuals = [self.term(f, o, env, args) for o in ins.operands]
@@ -677,6 +717,16 @@ class Executor:
                 return
             if op == "ret":
                 ret = self.term(f, ins.operands[0], env, args) if ins.operands else None
+                if isinstance(ret, tuple) and not is_const(ret):
+                    # a value the path's facts pin to a constant is returned as that constant (`return res;` on the
+                    # path where res == NULL is known is the same as `return NULL;`)
+                    c_ = st.eqc.get(ret)
+                    if c_ is not None:
+                        ret = ("c", c_)
+                    elif st.known_null(ret):
+                        ret = ZERO
+                    elif st.truth.get(ret) is not None and self.type_of_term(ret) == "i1":
+                        ret = ("c", int(st.truth[ret]))
                 st.events.append(Event("ret", ins, f, (ret,), ret, len(st.facts), None, None, None, depth))
                 if depth == 0:
                     self.npaths += 1
@@ -747,6 +797,8 @@ class Executor:
                         if v >> (sb - 1):
                             v = (v - (1 << sb)) & mask(type_bits(ins.type))
                         return ("c", v)
+            if op == "trunc" and isinstance(a, tuple) and a[0] == "cast" and a[1] in ("zext", "sext") and self.type_of_term(a[3]) == ins.type:
+                return a[3]      # a value widened (e.g. a bool kept in a byte-sized local) and narrowed back
             return ("cast", op, ins.type, a)
         if op in ("icmp", "fcmp"):
             a, b = T(ops[0]), T(ops[1])
@@ -797,6 +849,37 @@ class Executor:
         if op == "insertvalue":
             return ("iv", T(ops[0]), T(ops[1]), tuple(ins.d.get("indices", ())))
         return ("opaque", op, ins.id)
+
+    def elem_size(self, ty):
+        """byte size of an element type of a single-index address computation (scalars, pointers, known structs)"""
+        if not ty:
+            return None
+        if ty.endswith("*"):
+            return 8
+        if ty.startswith("i") and ty[1:].isdigit():
+            return max(1, int(ty[1:]) // 8)
+        if ty == "float":
+            return 4
+        if ty == "double":
+            return 8
+        st_ = self.prog.structs.get(ty.lstrip("%"))
+        if st_ and "size" in st_:
+            return st_["size"]
+        return None
+
+    def type_of_term(self, t):
+        """IR type of a term where the term itself says so (None otherwise)"""
+        if not isinstance(t, tuple):
+            return None
+        if t[0] in ("icmp", "fcmp", "not"):
+            return "i1"
+        if t[0] in ("cast",):
+            return t[2]
+        if t[0] == "op":
+            return t[2]
+        if t[0] == "call" and t[1] in self.prog.funcs:
+            return self.prog.funcs[t[1]].ret_type
+        return None
 
     # ---- calls that are not inlined ----
     def do_call(self, f, ins, env, st, args, depth, resolved=None):
